@@ -177,6 +177,9 @@ def _socks_callback(ck, method):
         strm = stream(o, scell)
         w = strm.out
         present = has_stream == BV(1, 64)
+        # the callback runs under the connection's write lock (ContextRefOps::on_connect / on_error): it must not wait for the
+        # client to send or close -- a client that just stays connected would keep its connection locked for everyone else
+        ex.prove(o, 'C14/callbacks/a-reply-callback-never-waits-for-bytes-from-the-client', not [e for e in o.trace if e[0] in ('read', 'eof') and e[1] == 'client'])
         if method == 'on_connect':
             complete = z3.If(ver.t == BV(5, 8), z3.UGE(w.len, BV(7, 64)), w.len == BV(8, 64))
             ex.prove(o, 'C06/socks/success-callback-sends-a-complete-flushed-reply', z3.And(complete, strm.flushed == w.len))
@@ -197,6 +200,9 @@ def _socks_callback(ck, method):
 
 def _socks_cb_replay_plan(ob):
     f = ob.finding
+    if f is not None and (ob.target or '').startswith('socks Callback::') and ob.label.startswith('C14/callbacks/'):
+        cases = [{'driver': 'error_reply_lock', 'args': {'version': v}} for v in (5, 4)]
+        return 'sockslisten', cases, lambda o: o.get('connection_lock_free_after_reply') is False
     if f is None or not (ob.target or '').startswith('socks Callback::') or ob.label.startswith('C0'):
         return None
     from specs.codec import _target_args, _host_is_text
@@ -536,7 +542,9 @@ def spec_auth_cache(ck):
             same = z3.And(C.bytes_equal(ex, q, u1, u2), C.bytes_equal(ex, q, p1, p2))
             hit = d == BV(1, 64)
             ex.prove(q, 'C07/cache/verdict-reused-only-for-the-identical-username-and-password', z3.Implies(hit, same))
-            ex.prove(q, 'C07/cache/identical-credentials-hit-the-cache-when-caching-is-on', z3.Implies(z3.And(same, timeout != BV(0, 64)), hit))
+            if not q.env.get('clock_reads'):
+                # (a cache that expires entries at look-up time may miss for age; spec_auth_cache_expiry covers that design)
+                ex.prove(q, 'C07/cache/identical-credentials-hit-the-cache-when-caching-is-on', z3.Implies(z3.And(same, timeout != BV(0, 64)), hit))
             ex.prove(q, 'C07/cache/timeout-zero-caches-nothing', z3.Implies(timeout == BV(0, 64), z3.Not(hit)))
             pv = r2.variants.get(1, {}).get(0)
             if isinstance(pv, Bool):
@@ -547,8 +555,129 @@ def spec_auth_cache(ck):
     ck.bounds['auth-cache'] = 'one set followed by one check, user/password strings <= 6 bytes, any timeout; expiry (spawned timer) not encoded'
 
 
+def spec_auth_cache_expiry(ck):
+    """"a cached password verdict is reused ... only until it expires".  Two ways of expiring are understood:
+      * a removal task: `set` spawns a task that sleeps exactly the configured time-out and then removes exactly the key it stored
+        (the task's own body is executed);
+      * look-up time expiry: `check` reads the clock; then, on a symbolic non-decreasing clock, in the history
+        set; check; check a verdict is served only while no more than the time-out has passed SINCE IT WAS STORED (a look-up does
+        not prolong its life).
+    A cache that stores verdicts (time-out > 0) and has neither is reported: its verdicts never expire."""
+    from specs.codec import poll_to_completion
+    fset = ck.find(lambda: ck.db.method('Cache', 'set'), 'Cache::set')
+    fchk = ck.find(lambda: ck.db.method('Cache', 'check'), 'Cache::check')
+    if fset is None or fchk is None:
+        return
+    ex = ck.engine(loop_bound=4)
+    ex.benign_havoc = re.compile(BENIGN.pattern + r'|JoinHandle')
+    ex.eq_bound = 6
+    st = State()
+    timeout = z3.BitVec('cache_timeout_secs', 64)
+    ex.assume(st, z3.And(timeout != BV(0, 64), z3.ULT(timeout, BV(1 << 40, 64))))
+    u1, p1 = Bytes.from_py(b'user', 'string'), Bytes.from_py(b'pass', 'string')
+    v1 = z3.Bool('cached_verdict')
+    mapcell = st.alloc(Opaque('HashMap<(String, String), V>', 'cache'))
+
+    def lock(ctx):
+        return Future('cachelock2', [])
+
+    @CA.awaiter('cachelock2')
+    def _aw(ctx, fut):
+        return Ref(mapcell, ())
+
+    def spawn(ctx):
+        ctx.st.trace.append(('spawn', ctx.args[0]))
+        return Opaque('JoinHandle<()>', 'task')
+
+    def sleep(ctx):
+        d = ctx.args[0]
+        ctx.st.trace.append(('sleep', d.fields[0].t if isinstance(d, Agg) and 0 in d.fields else None))
+        return Future('unit', [])
+    ex.overrides.append((re.compile(r'^tokio::sync::Mutex::<HashMap<\(.*String, .*String\), .*>>::lock$'), lock))
+    ex.overrides.append((re.compile(r'^tokio::spawn::<|^tokio::task::spawn::<'), spawn))
+    ex.overrides.append((re.compile(r'^tokio::time::sleep$'), sleep))
+    cf = ck.si.structs.get('Cache', ['timeout', 'data'])
+    cache = Agg('Cache', {cf.index('timeout'): Int(timeout, 64), cf.index('data'): Ref(st.alloc(Ref(mapcell, ())), ())})
+    ccell = st.alloc(cache)
+    ex.inputs = {'cache_timeout_secs': timeout, 'cached_verdict': v1}
+    k1 = Ref(st.alloc(Agg('tuple', {0: u1, 1: p1})), ())
+    label_task = 'C07/cache/a-stored-verdict-is-removed-by-its-task-after-exactly-the-configured-timeout'
+    label_lazy = 'C07/cache/a-verdict-is-served-only-within-the-timeout-since-it-was-stored'
+    label_none = 'C07/cache/a-stored-verdict-expires'
+    allf = []
+    reached = 0
+    for o, r in run_async(ex, st, fset, [Ref(ccell, ()), k1, Bool(v1)]):
+        allf.append(o)
+        if o.status != 'returned' or r is None:
+            continue
+        reached += 1
+        spawns = [e for e in o.trace if e[0] == 'spawn']
+        t_set = list(o.env.get('clock_reads', []))
+        if spawns:
+            # design 1: run the task the cache spawned
+            ex.prove(o, label_task, z3.BoolVal(len(spawns) == 1))
+            o2 = o.fork()
+            o2.trace = list(o.trace)
+            n0 = len(o2.trace)
+            try:
+                done = poll_to_completion(ex, o2, spawns[0][1])
+            except Unsupported as e:
+                ck.add(label_task, 'inconclusive', 'the spawned task could not be executed: %s' % e)
+                continue
+            for q, _ in done:
+                allf.append(q)
+                if q.status != 'returned':
+                    continue
+                ev = q.trace[n0:]
+                sl = [e for e in ev if e[0] == 'sleep']
+                rm = [e for e in ev if e[0] == 'map.remove']
+                slept_right = z3.BoolVal(False) if (len(sl) != 1 or sl[0][1] is None) else sl[0][1] == timeout
+                removed_right = z3.BoolVal(False)
+                if len(rm) == 1:
+                    eqk = C.value_eq(ex, q, rm[0][1], ex.deref(q, k1))
+                    removed_right = eqk if eqk is not None else z3.BoolVal(False)
+                order = z3.BoolVal(bool(sl and rm and ev.index(sl[0]) < ev.index(rm[0])))
+                ex.prove(q, label_task, z3.And(slept_right, removed_right, order))
+            continue
+        # design 2 (or none): two look-ups of the same key on a non-decreasing clock
+        for q1, r1 in run_async(ex, o.fork(), fchk, [Ref(ccell, ()), k1]):
+            allf.append(q1)
+            if q1.status != 'returned' or not isinstance(r1, Agg):
+                continue
+            reads1 = list(q1.env.get('clock_reads', []))[len(t_set):]
+            if not t_set or not reads1:
+                ex.prove(q1, label_none, z3.BoolVal(False))
+                continue
+            hit1 = (BV(r1.discr, 64) if isinstance(r1.discr, int) else r1.discr) == BV(1, 64)
+            ex.prove(q1, label_lazy, z3.Implies(hit1, z3.ULE(reads1[0] - t_set[0], timeout)))
+            for q2, r2 in run_async(ex, q1.fork(), fchk, [Ref(ccell, ()), k1]):
+                allf.append(q2)
+                if q2.status != 'returned' or not isinstance(r2, Agg):
+                    continue
+                reads2 = list(q2.env.get('clock_reads', []))[len(t_set) + len(reads1):]
+                if not reads2:
+                    continue
+                hit2 = (BV(r2.discr, 64) if isinstance(r2.discr, int) else r2.discr) == BV(1, 64)
+                ex.prove(q2, label_lazy, z3.Implies(hit2, z3.ULE(reads2[0] - t_set[0], timeout)))
+    if not reached:
+        ck.add('C07/cache/expiry-reachability', 'vacuous', 'Cache::set never returned in the model')
+    for f in ex.findings:
+        if not hasattr(f, 'target'):
+            f.target = 'auth Cache expiry'
+    ck.plans.append(_cache_expiry_replay_plan)
+    ck.absorb(ex, 'auth Cache (expiry)', allf)
+    ck.bounds['auth-cache-expiry'] = 'one set (time-out > 0) then: the spawned removal task run to its end, or two look-ups of the same key on a symbolic whole-second clock'
+
+
+def _cache_expiry_replay_plan(ob):
+    if (ob.target or '') != 'auth Cache expiry' or not ob.label.startswith('C07/cache/'):
+        return None
+    # real time: a 1 s time-out, a look-up at 0.6 s (inside), a look-up at 1.5 s (past the expiry of the stored verdict)
+    return 'auth', {'driver': 'cache_expiry', 'args': {'timeout': 1, 'first_lookup_ms': 600, 'second_lookup_ms': 1500}}, lambda o: o.get('served_after_expiry') is True
+
+
 def _cache_replay_plan(ob):
-    if not ob.label.startswith('C07/cache/'):
+    if not ob.label.startswith('C07/cache/') or (ob.target or '') == 'auth Cache expiry':
         return None
     f = ob.finding
     i = f.inputs if f is not None else {}
